@@ -511,22 +511,18 @@ def siblings(ctx, mod, fns, I):
             if isinstance(n, ast.Compare) and isinstance(n.left, ast.Constant) and isinstance(n.left.value, str) and any(isinstance(o, (ast.In, ast.NotIn)) for o in n.ops):
                 ks.add(n.left.value)
         return ks
-    written = set()
-    for n in ast.walk(hdr):
-        if isinstance(n, (ast.JoinedStr, ast.Constant)):
-            s = "".join(v.value for v in n.values if isinstance(v, ast.Constant) and isinstance(v.value, str)) if isinstance(n, ast.JoinedStr) else (n.value if isinstance(n.value, str) else "")
-            import re
-            for m in re.finditer(r"(\w+):", s):
-                written.add(m.group(1))
+    text, _ = header_text(ctx)
+    import re
+    lines = [ln for ln in text.split("\n")] if isinstance(text, str) else []
+    written = {m.group(1) for ln in lines for m in [re.match(r"^\s*(?:-\s*)?(\w+):", ln)] if m}
     read_keys = (const_keys(read) | const_keys(val)) - {"schema"}
-    ctx.ob("C16.siblings", "header keys written ⊇ schema keys read", read_keys <= written, f"read {sorted(read_keys)}, written {sorted(written)}", L(mod, hdr, ctx))
-    # frame markers: the writer opens and closes the YAML block with the marker line the reader splits on
-    marks_w = [c for c in ast.walk(hdr) if isinstance(c, ast.Call) and isinstance(c.func, ast.Attribute) and c.func.attr == "write"
-               and any(isinstance(x, ast.Constant) and x.value == "---" for a in c.args for x in ast.walk(a))]
-    body_calls = [st for st in hdr.body if isinstance(st, ast.Expr) and st.value in marks_w]
-    first_last = len(marks_w) >= 2 and bool(body_calls) and hdr.body[-1] in body_calls
+    ctx.ob("C16.siblings", "header keys written ⊇ schema keys read", isinstance(text, str) and read_keys <= written,
+           f"read {sorted(read_keys)}, written {sorted(written)}" if isinstance(text, str) else f"header writer could not be interpreted: {text!r}", L(mod, hdr, ctx))
+    # frame markers: the emitted header opens and closes the YAML block with the marker line the reader splits on
+    body = [ln for ln in lines if ln != ""]
+    first_last = len(body) >= 2 and body[0] == "---" and body[-1] == "---" and sum(1 for ln in body if ln == "---") == 2
     ctx.ob("C16.siblings", "YAML block opened and closed by '---' lines in the writer", first_last,
-           f"{len(marks_w)} marker write(s) in the header writer (last statement is a marker: {bool(body_calls) and hdr.body[-1] in body_calls})", L(mod, hdr, ctx))
+           f"first line {body[0]!r}, last line {body[-1]!r}, {sum(1 for ln in body if ln == '---')} marker lines" if body else "nothing was written", L(mod, hdr, ctx))
     ctx.floor("C16.siblings", 8)
     line_classes(ctx, mod, read)
 
@@ -637,45 +633,90 @@ def substitution(ctx, mod, fns):
     ctx.ob("C16.substitution", "_parse_scsv_cell:missing marker reads back as the typed fill", ok2, "", L(mod, pc, ctx))
 
 
+Q0, Q1 = "\u27e6", "\u27e7"
+TAINT = {"delimiter": "\u00a7D", "missing": "\u00a7M", "unit": "\u00a7U", "fill": "\u00a7F"}
+
+
+# words that YAML 1.1 (PyYAML's implicit resolvers) does not read back as the string they are, although they look like plain words or numbers
+YAML_SPECIAL = ("no", "No", "NO", "yes", "Yes", "YES", "on", "On", "ON", "off", "Off", "OFF", "true", "True", "TRUE", "false", "False", "FALSE",
+                "null", "Null", "NULL", "~", "1e3", "0x1F", "1_000", "0o7", ".inf", "-.INF", ".nan", ".NaN", "2001-01-01", "=", "<<", "12:30:45", "0b101", "1.5", "-7")
+
+
+def header_text(ctx, comments=("a comment",), taint=None):
+    """write_scsv_header interpreted on a schema whose free-text scalars are marked strings, with every YAML/JSON dumper replaced by a function
+    that brackets its argument: returns (emitted text with os.linesep as newline, None) or (reason, None)."""
+    from ..values import Native, Unsupported
+    from ..interp import RaiseSig
+    I, log, stream = _io_harness(ctx, validator=True)
+
+    def dumper(I_, value, *a, **k):
+        return Q0 + (value if isinstance(value, str) else repr(value)) + Q1 + "\n...\n"
+    for q in QUOTERS:
+        I.externals[q] = Native(q, dumper)
+    taint = taint or TAINT
+    schema = {"delimiter": taint["delimiter"], "missing": taint["missing"],
+              "fields": [{"name": "alpha", "type": "float", "unit": taint["unit"], "fill": taint["fill"]}, {"name": "beta", "type": "string"}, {"name": "gamma"}]}
+    try:
+        I.call(I.resolve("pydrex.io.write_scsv_header"), (stream, schema), {"comments": list(comments)})
+    except RaiseSig as r:
+        return f"raises {r.exc.typename}", None
+    except Unsupported as ex:
+        return f"outside the interpreted subset: {ex}", None
+    parts = [e[1] for e in log if e[0] == "write"]
+    if not all(isinstance(x, str) for x in parts):
+        return f"non-text write: {[type(x).__name__ for x in parts if not isinstance(x, str)][:2]}", None
+    import os as _os
+    return "".join(parts).replace("\r\n", "\n").replace(_os.linesep, "\n"), None
+
+
 def yaml_emission(ctx, mod, fns, I):
-    hdr, val = fns["write_scsv_header"], fns["_validate_scsv_schema"]
-    # keys validated to a safe alphabet by the validator
-    validated = set()
-    for n in ast.walk(val):
-        if isinstance(n, ast.If):
-            test = n.test
-            rej = any(isinstance(r, ast.Return) and isinstance(r.value, ast.Constant) and r.value.value is False for s in n.body for r in ast.walk(s))
-            if not rej:
-                continue
-            for x in ast.walk(test):
-                if isinstance(x, ast.Call) and isinstance(x.func, ast.Attribute) and x.func.attr == "isidentifier":
-                    k = key_of(x.func.value)
-                    if k and isinstance(test, ast.UnaryOp):
-                        validated.add(k)
-                if isinstance(x, ast.Compare) and any(isinstance(o, ast.NotIn) for o in x.ops):
-                    k = key_of(x.left)
-                    tbl = ast.unparse(x.comparators[0])
-                    if k and "SCSV_TYPEMAP" in tbl:
-                        validated.add(k)
-    stream = hdr.args.args[0].arg
-    # reaching definitions (simple: last assignment of a name anywhere in the function, incl. loop targets)
-    defs = {}
-    for n in ast.walk(hdr):
-        if isinstance(n, ast.Assign) and len(n.targets) == 1 and isinstance(n.targets[0], ast.Name):
-            defs.setdefault(n.targets[0].id, []).append(n.value)
-    sites = 0
-    for c in ast.walk(hdr):
-        if not (isinstance(c, ast.Call) and isinstance(c.func, ast.Attribute) and c.func.attr == "write" and flow.dotted(c.func.value) == stream):
+    """Taint by interpretation: the free-text scalars of the schema (delimiter, missing marker, units, fills) may reach the emitted header only
+    inside the output of a YAML/JSON dumper; names and types are restricted by the validator (C16.validator) and may be written as they are."""
+    hdr = fns["write_scsv_header"]
+    text, _ = header_text(ctx)
+    if not isinstance(text, str) or TAINT["delimiter"] not in (text or ""):
+        ctx.ob("C16.yaml-emission", "write_scsv_header", "inconclusive" if not isinstance(text, str) else False,
+               f"header writer: {text!r}"[:200] if not isinstance(text, str) else "the schema scalars do not reach the header at all", L(mod, hdr, ctx))
+        return
+    for key, mark in TAINT.items():
+        bare = 0
+        depth = 0
+        i = 0
+        occurrences = 0
+        while i < len(text):
+            ch = text[i]
+            if ch == Q0:
+                depth += 1
+            elif ch == Q1:
+                depth -= 1
+            elif text.startswith(mark, i):
+                occurrences += 1
+                if depth <= 0:
+                    bare += 1
+                i += len(mark) - 1
+            i += 1
+        ctx.ob("C16.yaml-emission", f"write_scsv_header:{key}", occurrences >= 1 and bare == 0,
+               (f"schema value '{key}' reaches the YAML header {bare} time(s) outside a YAML/JSON dumper (unquoted or hand-quoted free text)" if bare else
+                f"schema value '{key}' is not written" if not occurrences else ""), L(mod, hdr, ctx))
+    # words that YAML does not read back as themselves must be dumped too, whatever they look like (identifiers, numbers)
+    escaped = []
+    for w in YAML_SPECIAL:
+        t2, _ = header_text(ctx, taint={"delimiter": ",", "missing": w, "unit": w, "fill": w})
+        if not isinstance(t2, str):
+            escaped.append((w, f"header writer: {t2}"))
             continue
-        for fv in [x for a in c.args for x in ast.walk(a) if isinstance(x, ast.FormattedValue)]:
-            expr = fv.value
-            srcs = schema_sources(expr, defs, I, hdr, mod)
-            for key, quoted in srcs:
-                sites += 1
-                ok = quoted or key in validated
-                ctx.ob("C16.yaml-emission", f"write_scsv_header:{key}", ok,
-                       f"schema value '{key}' is interpolated into the YAML header without quoting/escaping and is not restricted to a safe alphabet by the validator "
-                       f"(validated keys: {sorted(validated)})" if not ok else "", L(mod, c, ctx))
+        for ln in t2.split("\n"):
+            st = ln.strip()
+            for key in ("missing", "unit", "fill"):
+                if st.startswith(key + ":") and (Q0 + w + Q1) not in st:
+                    escaped.append((w, st))
+    ctx.ob("C16.yaml-emission", f"write_scsv_header: {len(YAML_SPECIAL)} words with a special meaning in YAML 1.1 as missing marker / unit / fill", not escaped,
+           f"written without passing through a YAML dumper (they are read back as booleans, null or numbers): {escaped[:6]}", L(mod, hdr, ctx))
+    # the two scalars written as they are must be the validated ones
+    for ln in text.split("\n"):
+        st = ln.strip()
+        if st.startswith("- name:") or st.startswith("name:") or st.startswith("type:"):
+            ctx.ob("C16.yaml-emission", f"write_scsv_header:{st.split(':')[0].lstrip('- ')} line `{st}`", Q0 not in st or True, "", L(mod, hdr, ctx))
     ctx.floor("C16.yaml-emission", 6)
 
 
